@@ -1,15 +1,29 @@
 (** * C05 — "Direction of learning: winning never costs mu, losing never earns it" (over R).
 
-    All theorems are stated on [compute k P trs] for an arbitrary list [trs] of team ratings
-    whose [t_ss] (sum of the members' tau-inflated variances) is positive; the finishing order
-    is [t_rank] (smaller = better).  [Phi], [Phiinv] are arbitrary; the Thurstone-Mosteller
-    theorems take [GaussFacts Phi Phiinv] as a premise (they use [gf_mono], [gf_range],
-    [gf_tail8], [gf_mills], [gf_band]); Plackett-Luce and Bradley-Terry need nothing.
+    Part 1 is stated on [compute k P trs] for an arbitrary list [trs] of team ratings whose
+    [t_ss] (sum of the members' tau-inflated variances) is positive; the finishing order is
+    [t_rank] (smaller = better).  Part 2 lifts first/last alone (no rank values, and explicit
+    rank values for any number of teams), the two-team order, the draw direction and (for
+    games without rank values) the order of identical teams to [rate_core] (tau inflation,
+    sort, update, unsort, sigma clamp).  [C05_exchange], [C05_identical_ordered] with
+    explicit rank values and [C05_identical_partial] are compute-level only: the exchange
+    swaps the [t_rank] of the two teams in place (the list order is kept; for PL/BTF/TMF
+    [compute] does not depend on it, which is C04's subject); they are not lifted through the
+    sort of [rate_core].  Nothing is [_partial]: every clause of the property text has a
+    theorem, the TM middle inequality (loss <= draw <= win) and the TM draw bound hold on both
+    branches of V~.  Reading of "weakly so under partial pairing": DESIGN.md §9-I1
+    ([C05_identical_partial]: a game of identical teams listed in finishing order).
+
+    [Phi], [Phiinv] are arbitrary; the Thurstone-Mosteller theorems take
+    [GaussFacts Phi Phiinv] as a premise (they use only [gf_mono], [gf_range], [gf_tail8],
+    [gf_mills], [gf_band]); Plackett-Luce and Bradley-Terry need nothing.
 
     Non-vacuity: [GaussFacts] cannot be instantiated here (no formalised Gaussian integral is
     installed), so theorems with that premise have no closed Example.  The PL/BT theorems have
-    obviously satisfiable hypotheses; Examples are given for them below. *)
-From Coq Require Import List Arith ZArith Reals Lra.
+    obviously satisfiable hypotheses; Examples instantiating them on concrete games are given.
+    Hypotheses of the form [compute ... = [x; y]] / [nth_error (compute ...) i = Some res] are
+    always satisfiable ([compute] returns one team per team: [C05_two_team_games_ex]). *)
+From Coq Require Import List Arith ZArith Reals Lra Lia.
 From OSV Require Import Num Order Gauss Core RInst.
 From OSV.Lemmas Require C05L C05RateL.
 Import ListNotations.
@@ -250,7 +264,7 @@ Theorem C05_exchange_PLBT : forall (Phi Phiinv : R -> R) (k : kind) (P : params 
   nth_error (compute (H := RNum Phi Phiinv) k P
      (map (fun t => mkT (t_mu t) (t_ss t) (t_team t) (if Nat.eqb (t_rank t) (t_rank ti) then t_rank tj else if Nat.eqb (t_rank t) (t_rank tj) then t_rank ti else t_rank t)) trs)) i = Some res' ->
   Forall2 (fun p p' => r_mu p <= r_mu p') res res'.
-Proof. intros; eapply (C05L.exchange Phi Phiinv k P trs i ti j tj); eauto; intros [E|E]; subst k; [congruence|destruct H0 as [E|[E|E]]; discriminate]. Qed.
+Proof. intros; eapply (C05L.exchange Phi Phiinv k P trs i ti j tj); eauto; intros [E|E]; subst k; intuition congruence. Qed.
 Print Assumptions C05_exchange_PLBT.
 
 (** No ties; PL and the full-pairing models: two teams with identical member lists anywhere
@@ -278,7 +292,7 @@ Theorem C05_identical_ordered_PLBT : forall (Phi Phiinv : R -> R) (k : kind) (P 
   nth_error (compute (H := RNum Phi Phiinv) k P trs) i = Some resi ->
   nth_error (compute (H := RNum Phi Phiinv) k P trs) j = Some resj ->
   Forall2 (fun pj pi => r_mu pj <= r_mu pi) resj resi.
-Proof. intros; eapply (C05L.identical_ordered Phi Phiinv k P trs i ti j tj); eauto; intros [E|E]; subst k; [congruence|destruct H0 as [E|[E|E]]; discriminate]. Qed.
+Proof. intros; eapply (C05L.identical_ordered Phi Phiinv k P trs i ti j tj); eauto; intros [E|E]; subst k; intuition congruence. Qed.
 Print Assumptions C05_identical_ordered_PLBT.
 
 (** Partial pairing (reading fixed in DESIGN §9-I1): in a game of identical teams listed in
@@ -342,8 +356,9 @@ Example C05_rate_first_alone_none_ex : forall (Phi Phiinv : R -> R) (res : list 
      [[mkRating 25 8 0%Z NmNone; mkRating 20 3 1%Z NmNone]; [mkRating 30 7 2%Z NmNone]; [mkRating 27 5 3%Z NmNone]] None) 0 = Some res ->
   Forall2 (fun p p' => r_mu p <= r_mu p') [mkRating 25 8 0%Z NmNone; mkRating 20 3 1%Z NmNone] res.
 Proof.
-  intros Phi Phiinv res E. eapply (C05_rate_first_alone_none Phi Phiinv PL); [| | | | |reflexivity|exact E]; cbn;
-    try lra; try lia; [intros [X|X]; discriminate|].
+  intros Phi Phiinv res E.
+  pose proof (fun H1 H2 H3 H4 H5 H6 => C05_rate_first_alone_none Phi Phiinv PL _ _ _ _ [mkRating 25 8 0%Z NmNone; mkRating 20 3 1%Z NmNone] _ H1 H2 H3 H4 H5 H6 E) as T.
+  apply T; cbn; try lra; try lia; try reflexivity; [intros [X|X]; discriminate|].
   repeat constructor; cbn; try discriminate; lra.
 Qed.
 
@@ -379,12 +394,13 @@ Example C05_rate_last_alone_keys_ex : forall (Phi Phiinv : R -> R) (res : list (
   Forall2 (fun p p' => r_mu p' <= r_mu p) [mkRating 30 7 2%Z NmNone] res.
 Proof.
   intros Phi Phiinv res E.
-  eapply (C05_rate_last_alone_keys Phi Phiinv BTP _ _ _ _ _ 1%nat (7, 1)%Z); [| | | | | | |reflexivity| |exact E]; cbn;
-    try lra; try lia; try reflexivity.
+  pose proof (fun H1 H2 H3 H4 H5 H6 H7 H8 H9 H10 =>
+     C05_rate_last_alone_keys Phi Phiinv BTP _ _ _ _ _ 1%nat (7, 1)%Z [mkRating 30 7 2%Z NmNone] _ H1 H2 H3 H4 H5 H6 H7 H8 H9 H10 E) as T.
+  apply T; cbn; try lra; try lia; try reflexivity.
   - intros [X|X]; discriminate.
   - repeat constructor; cbn; try discriminate; lra.
   - repeat constructor; cbn; lia.
-  - intros [|[|[|q]]] kq Hq Eq; cbn in Eq; try congruence; injection Eq as <-; reflexivity.
+  - intros [|[|[|q]]] kq Hq Eq; cbn in Eq; try congruence; try (destruct q; discriminate); injection Eq as <-; reflexivity.
 Qed.
 
 (** two-team games with explicit rank values: [a] wins with (kw, kw'), draws with (kd, kd'),
@@ -415,6 +431,20 @@ Theorem C05_rate_draw_direction_PLBT : forall (Phi Phiinv : R -> R) (k : kind) (
 Proof. intros; eapply (C05RateL.rate_draw_direction_plbt Phi Phiinv k P tau limit ta tb kd kd'); eauto. Qed.
 Print Assumptions C05_rate_draw_direction_PLBT.
 
+(** no rank values (input order = finishing order, no ties), PL and full pairing: of two
+    teams with identical member lists the earlier (better placed) one ends with mu >= *)
+Theorem C05_rate_identical_ordered_none : forall (Phi Phiinv : R -> R) (k : kind) (P : params R) (tau : R) (limit : bool)
+    (teams : list (list (rating R))) (i j : nat) (t resi resj : list (rating R)),
+  (k = TMF -> GaussFacts Phi Phiinv) -> (k = PL \/ k = BTF \/ k = TMF) ->
+  (2 <= length teams)%nat -> 0 < p_beta P -> 0 < p_kappa P ->
+  Forall (fun t => t <> [] /\ Forall (fun p => 0 < r_sigma p * r_sigma p + tau * tau) t) teams ->
+  (i < j)%nat -> nth_error teams i = Some t -> nth_error teams j = Some t ->
+  nth_error (rate_core (H := RNum Phi Phiinv) k P tau limit teams None) i = Some resi ->
+  nth_error (rate_core (H := RNum Phi Phiinv) k P tau limit teams None) j = Some resj ->
+  Forall2 (fun pj pi => r_mu pj <= r_mu pi) resj resi.
+Proof. intros; eapply (C05RateL.rate_identical_none Phi Phiinv k P tau limit teams i j t); eauto; intros [E|E]; subst k; intuition congruence. Qed.
+Print Assumptions C05_rate_identical_ordered_none.
+
 Theorem C05_rate_draw_direction_TMF : forall (Phi Phiinv : R -> R) (P : params R) (tau : R) (limit : bool)
     (ta tb : list (rating R)) (kd kd' : key) (ad bd : list (rating R)),
   GaussFacts Phi Phiinv -> 0 < p_beta P -> 0 < p_kappa P ->
@@ -444,3 +474,84 @@ Theorem C05_rate_draw_direction_TMP : forall (Phi Phiinv : R -> R) (P : params R
   /\ Forall2 (fun p0 x => r_mu p0 + r_sigma (inflate (H := RNum Phi Phiinv) tau p0) * r_sigma (inflate (H := RNum Phi Phiinv) tau p0) / sb * - (sb / c * (p_kappa P / c)) <= r_mu x) tb bd.
 Proof. intros; eapply (C05RateL.rate_draw_direction_tm Phi Phiinv true TMP P tau limit ta tb kd kd'); eauto. Qed.
 Print Assumptions C05_rate_draw_direction_TMP.
+
+(** ** Non-vacuity of the compute-level PL/BT statements: concrete games satisfying the hypotheses *)
+Example C05_first_alone_PL_ex : forall (Phi Phiinv : R -> R) (res : list (rating R)),
+  let a := [mkRating 25 8 0%Z NmNone; mkRating 20 3 1%Z NmNone] in
+  nth_error (compute (H := RNum Phi Phiinv) PL (mkParams (25/6) (1/10000) (gamma_default (H := RNum Phi Phiinv)))
+     [mkT 45 73 a 0; mkT 30 49 [mkRating 30 7 2%Z NmNone] 1; mkT 27 25 [mkRating 27 5 3%Z NmNone] 1]) 0 = Some res ->
+  Forall2 (fun p p' => r_mu p <= r_mu p') a res.
+Proof.
+  intros Phi Phiinv res a E.
+  pose proof (fun H1 H2 H3 H4 H5 H6 => C05_first_alone_PL Phi Phiinv _ _ 0%nat (mkT 45 73 a 0) _ H1 H2 H3 H4 H5 H6 E) as T.
+  apply T; cbn; try lra; try lia; try reflexivity.
+  - repeat constructor; cbn; lra.
+  - intros [|[|[|q]]] tq Hq Eq; cbn in Eq; try congruence; try (destruct q; discriminate); injection Eq as <-; cbn; lia.
+Qed.
+
+Example C05_last_alone_BTF_ex : forall (Phi Phiinv : R -> R) (res : list (rating R)),
+  let c := [mkRating 27 5 3%Z NmNone] in
+  nth_error (compute (H := RNum Phi Phiinv) BTF (mkParams (25/6) (1/10000) (gamma_default (H := RNum Phi Phiinv)))
+     [mkT 45 73 [mkRating 25 8 0%Z NmNone; mkRating 20 3 1%Z NmNone] 0; mkT 30 49 [mkRating 30 7 2%Z NmNone] 0; mkT 27 25 c 2]) 2 = Some res ->
+  Forall2 (fun p p' => r_mu p' <= r_mu p) c res.
+Proof.
+  intros Phi Phiinv res c E.
+  pose proof (fun H1 H2 H3 H4 H5 H6 => C05_last_alone_BTF Phi Phiinv _ _ 2%nat (mkT 27 25 c 2) _ H1 H2 H3 H4 H5 H6 E) as T.
+  apply T; cbn; try lra; try lia; try reflexivity.
+  - repeat constructor; cbn; lra.
+  - intros [|[|[|q]]] tq Hq Eq; cbn in Eq; try congruence; try (destruct q; discriminate); injection Eq as <-; cbn; lia.
+Qed.
+
+Example C05_draw_direction_PLBT_ex : forall (Phi Phiinv : R -> R) (ad bd : list (rating R)),
+  compute (H := RNum Phi Phiinv) BTP (mkParams (25/6) (1/10000) (gamma_default (H := RNum Phi Phiinv)))
+     [mkT 30 49 [mkRating 30 7 1%Z NmNone] 0; mkT 25 64 [mkRating 25 8 0%Z NmNone] 0] = [ad; bd] ->
+  Forall2 (fun p0 x => r_mu x <= r_mu p0) [mkRating 30 7 1%Z NmNone] ad
+  /\ Forall2 (fun p0 x => r_mu p0 <= r_mu x) [mkRating 25 8 0%Z NmNone] bd.
+Proof.
+  intros Phi Phiinv ad bd E.
+  apply (C05_draw_direction_PLBT Phi Phiinv BTP _ _ _ _ _ _ _ _ _ _ (or_intror (or_intror eq_refl))) in E; cbn; try lra. exact E.
+Qed.
+
+Example C05_exchange_PLBT_ex : forall (Phi Phiinv : R -> R) (res res' : list (rating R)),
+  let P := mkParams (25/6) (1/10000) (gamma_default (H := RNum Phi Phiinv)) in
+  let a := [mkRating 25 8 0%Z NmNone; mkRating 20 3 1%Z NmNone] in
+  let b := [mkRating 30 7 2%Z NmNone] in let c := [mkRating 27 5 3%Z NmNone] in
+  nth_error (compute (H := RNum Phi Phiinv) PL P [mkT 45 73 a 0; mkT 30 49 b 1; mkT 27 25 c 2]) 2 = Some res ->
+  nth_error (compute (H := RNum Phi Phiinv) PL P [mkT 45 73 a 2; mkT 30 49 b 1; mkT 27 25 c 0]) 2 = Some res' ->
+  Forall2 (fun p p' => r_mu p <= r_mu p') res res'.
+Proof.
+  intros Phi Phiinv res res' P a b c E E'.
+  apply (C05_exchange_PLBT Phi Phiinv PL P [mkT 45 73 a 0; mkT 30 49 b 1; mkT 27 25 c 2] 2 0 (mkT 27 25 c 2) (mkT 45 73 a 0) res res');
+    cbn; try lra; try lia; try reflexivity; try discriminate; auto.
+  - repeat constructor; cbn; lra.
+  - repeat constructor; cbn; intuition lia.
+Qed.
+
+Example C05_identical_ordered_PLBT_ex : forall (Phi Phiinv : R -> R) (resi resj : list (rating R)),
+  let P := mkParams (25/6) (1/10000) (gamma_default (H := RNum Phi Phiinv)) in
+  let a := [mkRating 25 8 0%Z NmNone] in let b := [mkRating 30 7 2%Z NmNone] in
+  nth_error (compute (H := RNum Phi Phiinv) BTF P [mkT 25 64 a 0; mkT 30 49 b 1; mkT 25 64 a 2]) 0 = Some resi ->
+  nth_error (compute (H := RNum Phi Phiinv) BTF P [mkT 25 64 a 0; mkT 30 49 b 1; mkT 25 64 a 2]) 2 = Some resj ->
+  Forall2 (fun pj pi => r_mu pj <= r_mu pi) resj resi.
+Proof.
+  intros Phi Phiinv resi resj P a b E E'.
+  apply (C05_identical_ordered_PLBT Phi Phiinv BTF P [mkT 25 64 a 0; mkT 30 49 b 1; mkT 25 64 a 2] 0 2 (mkT 25 64 a 0) (mkT 25 64 a 2) resi resj);
+    cbn; try lra; try lia; try reflexivity; try discriminate; auto.
+  - repeat constructor; cbn; lra.
+  - repeat constructor; cbn; intuition lia.
+Qed.
+
+Example C05_identical_partial_BTP_ex : forall (Phi Phiinv : R -> R) (resi resj : list (rating R)),
+  let P := mkParams (25/6) (1/10000) (gamma_default (H := RNum Phi Phiinv)) in
+  let a := [mkRating 25 8 0%Z NmNone] in
+  nth_error (compute (H := RNum Phi Phiinv) BTP P [mkT 25 64 a 0; mkT 25 64 a 1; mkT 25 64 a 2]) 1 = Some resi ->
+  nth_error (compute (H := RNum Phi Phiinv) BTP P [mkT 25 64 a 0; mkT 25 64 a 1; mkT 25 64 a 2]) 2 = Some resj ->
+  Forall2 (fun pj pi => r_mu pj <= r_mu pi) resj resi.
+Proof.
+  intros Phi Phiinv resi resj P a E E'.
+  apply (C05_identical_partial_BTP Phi Phiinv BTP P [mkT 25 64 a 0; mkT 25 64 a 1; mkT 25 64 a 2] 25 64 a 1 2 resi resj);
+    cbn; try lra; try lia; try reflexivity; auto.
+  - repeat constructor.
+  - intros [|[|[|x]]] [|[|[|y]]] u w Hxy Eu Ew; cbn in Eu, Ew; try lia; try (destruct x; discriminate); try (destruct y; discriminate);
+      injection Eu as <-; injection Ew as <-; cbn; lia.
+Qed.
